@@ -196,6 +196,11 @@ fn c05() {
         jobs.push(Job { harness: "c05_drop", cfg: json!({"main_n": 1, "prod_n": 1, "jump_k": k, "jump_secs": 2, "pb": pb}) });
         jobs.push(Job { harness: "c05_drop", cfg: json!({"main_n": 1, "prod_n": 1, "jump_k": k, "jump_secs": 40, "pb": pb}) });
     }
+    // a producer that does not stop (horizon: 200 refills, 8 s of writer time per entry)
+    let ks: Vec<u64> = if tier == Tier::Quick { vec![0, 1, 31, 32, 33, 64] } else { (0..=70).collect() };
+    for k in ks {
+        jobs.push(Job { harness: "c05_busy_producer", cfg: json!({"k": k, "prefill": 40, "refills": 200, "horizon": 100, "pb": 0, "max_branches": 200000}) });
+    }
     for (main_n, prod_n) in [(1, 0), (1, 1), (0, 2), (2, 1)] {
         for boxed in [false, true] {
             jobs.push(Job { harness: "c05_forget", cfg: json!({"main_n": main_n, "prod_n": prod_n, "boxed": boxed, "pb": pb}) });
